@@ -14,6 +14,9 @@ import (
 )
 
 func Sign(ctx context.Context, r io.Reader, cert *certloader.Certificate, params *csblob.SignatureParams) (*binpatch.PatchSet, *pkcs9.TimestampedSignature, error) {
+	// count how much of the image is actually there
+	nr := &counter{r: r}
+	r = nr
 	var saved bytes.Buffer
 	tee := io.TeeReader(r, &saved)
 	markers, err := scanFile(tee)
@@ -27,7 +30,7 @@ func Sign(ctx context.Context, r io.Reader, cert *certloader.Certificate, params
 	estimatedSize += 16384
 	// patch header to make space
 	oldHeaderSize := len(headerBuf)
-	headerBuf, sigBuf, sigStart, patch, padding, err := markers.PatchSignature(headerBuf, estimatedSize)
+	headerBuf, sigStart, reserved, patch, padding, err := markers.PatchSignature(headerBuf, estimatedSize)
 	if err != nil {
 		return nil, nil, err
 	}
@@ -48,14 +51,34 @@ func Sign(ctx context.Context, r io.Reader, cert *certloader.Certificate, params
 	if err != nil {
 		return nil, nil, err
 	}
-	// fill patch buffer with signature
-	if len(blob) > len(sigBuf) {
-		return nil, nil, fmt.Errorf("signature overflows reserved space: have %d bytes, need %d", len(sigBuf), len(blob))
+	// the sizes in the load commands are only believed once the stream has
+	// delivered that many bytes, so nothing is allocated from them until now
+	if nr.n < markers.codeSize+markers.sigLen {
+		return nil, nil, fmt.Errorf("image is truncated: load commands indicate %d bytes but found %d", markers.codeSize+markers.sigLen, nr.n)
 	}
-	copy(sigBuf, blob)
+	// fill patch buffer with signature
+	if int64(len(blob)) > reserved {
+		return nil, nil, fmt.Errorf("signature overflows reserved space: have %d bytes, need %d", reserved, len(blob))
+	}
+	padded := make([]byte, padding+reserved)
+	copy(padded[padding:], blob)
+	patch.Add(markers.codeSize, markers.sigLen, padded)
 	// discard remainder of stream
 	if _, err := io.Copy(ioutil.Discard, r); err != nil {
 		return nil, nil, err
 	}
 	return patch, tsig, nil
+}
+
+type counter struct {
+	r io.Reader
+	n int64
+}
+
+func (c *counter) Read(d []byte) (n int, err error) {
+	n, err = c.r.Read(d)
+	if n > 0 {
+		c.n += int64(n)
+	}
+	return
 }
